@@ -11,6 +11,12 @@ def digests(model):
     icalendar.use_zoneinfo()
     out = []
     cal = build(model)
+    # a date list whose items are in several zones / of several kinds: whatever the library does with it, it must not depend on the hash seed
+    from .vals import py
+    target = cal.subcomponents[0] if cal.subcomponents else cal
+    zs = ["Europe/Berlin", "America/New_York", "Asia/Tokyo", "Australia/Lord_Howe", "Africa/Cairo"]
+    target.add("exdate", [py(("dt", 2024, 5, 6, 7, 8, 9, "zone:" + z)) for z in zs])
+    target.add("rdate", [py(("d", 2024, 5, 6)), py(("dt", 2024, 5, 6, 7, 8, 9, "zone:Asia/Tokyo")), (py(("dt", 2024, 5, 6, 7, 8, 9, "zone:Europe/Berlin")), py(("td", 3600)))])
     out.append(hashlib.sha256(cal.to_ical()).hexdigest())
     out.append(hashlib.sha256(cal.to_ical(sorted=False)).hexdigest())
     cal2 = build(model)
